@@ -937,6 +937,23 @@ func c07OrderSweep(rnd *hx.Rand, opts []fox.GlobalOption, cs *hx.Cases, st *hx.S
 			fams = append(fams, all)
 		}
 	}
+	// mixed families: a {param} AND a *{catch-all} edge (and static edges) under one node, with the node's
+	// own pattern and routes below: the node is rebuilt by inserts that end exactly on it, split it or delete it
+	for _, mixed := range [][]string{
+		{"/users/", "/users", "/users/{id}", "/users/*{path}", "/users/{id}/", "/users/new", "/users/{id}/x"},
+		{"/f/{a}", "/f/*{b}", "/f/", "/f/x", "/f/{a}/y", "/f/x{a}", "/f/x*{b}"},
+		{"a.b/", "a.b/{p}", "a.b/*{w}", "{s}.b/", "{s}.b/{p}", "a.b/x", "a.b/{p}/"},
+		{"/{a}", "/*{b}", "/", "/x", "/{a}/", "/x/{c}", "/x/*{d}"},
+	} {
+		var fam []string
+		for _, q := range mixed {
+			f, _ := fox.New(opts...)
+			if _, err := f.Handle("GET", q, rt.Noop); err == nil {
+				fam = append(fam, q)
+			}
+		}
+		fams = append(fams, fam)
+	}
 	for _, fam := range fams {
 		if len(fam) < 2 {
 			continue
